@@ -1,7 +1,7 @@
 (* Extraction of the executable model. Only ExtrOcamlBasic directives are used
    (bool, option, unit, list, prod, sumbool, sumor -> OCaml's own); N, Z, positive, nat stay inductive. *)
 From Coq Require Import Extraction ExtrOcamlBasic.
-From CV Require Import Base Consts Token PostAction Env Loop Transient Signals Timeout.
+From CV Require Import Base Consts Token PostAction Env Loop Transient Signals Timeout ConcPing.
 Extraction Language OCaml.
 Extraction "model.ml"
   Consts.BITS_VERSION Consts.BITS_SUBID
@@ -10,4 +10,5 @@ Extraction "model.ml"
   PostAction.pa_bitor PostAction.pa_bitor_assign PostAction.pa_code PostAction.pa_of_code
   Env.int_of_code Env.mode_of_code Loop.run Loop.trace_of Loop.default_script
   Transient.t_run Transient.t_map_some Transient.proto_ok Transient.f7_free Transient.all_ok Transient.t_init
-  Signals.s_init Signals.s_step Timeout.eff_timeout.
+  Signals.s_init Signals.s_step Timeout.eff_timeout
+  ConcPing.cp_init ConcPing.cp_step ConcPing.wf_prog.
